@@ -1,6 +1,8 @@
 package main
 
 import (
+	"go/token"
+	"go/types"
 	"crypto/sha1"
 	"encoding/json"
 	"flag"
@@ -30,8 +32,17 @@ type PropConfig struct {
 	// GuardedBy: stores to fields of Struct need its RWMutex field Lock write-held (ghost wheld), except in
 	// the exempt functions (constructors, options)
 	GuardedBy []GuardedBy `json:"guarded_by"`
+	// ForbidFieldRead: functions statically reachable from the entry points must not read the field (an
+	// obligation "false" at every such load: the load must be unreachable)
+	ForbidFieldRead []ForbidField `json:"forbid_field_read"`
 	// Uses: clauses tagged with these properties are assumed in this property's run (imports)
 	Uses []string `json:"uses"`
+}
+
+type ForbidField struct {
+	Struct    string   `json:"struct"`
+	Field     string   `json:"field"`
+	Reachable []string `json:"reachable_from"`
 }
 
 type GuardedBy struct {
@@ -141,6 +152,25 @@ func (c *Ctx) functionSet(prop string, cfg *PropConfig) (fns []*ssa.Function, sw
 			for _, pat := range f.Functions {
 				if globMatch(pat, c.keyOf(fn)) {
 					set[fn] = true
+				}
+			}
+		}
+	}
+	for _, ff := range cfg.ForbidFieldRead {
+		scope := c.gbScope(GuardedBy{Struct: ff.Struct + "." + ff.Field, Reachable: ff.Reachable})
+		for _, fn := range all {
+			if !scope[c.keyOf(fn)] {
+				continue
+			}
+			for _, b := range fn.Blocks {
+				for _, in := range b.Instrs {
+					if u, ok := in.(*ssa.UnOp); ok && u.Op == token.MUL {
+						if fa, ok := u.X.(*ssa.FieldAddr); ok && typeKey(deref(fa.X.Type())) == ff.Struct {
+							if sts, ok := deref(fa.X.Type()).Underlying().(*types.Struct); ok && sts.Field(fa.Field).Name() == ff.Field {
+								set[fn] = true
+							}
+						}
+					}
 				}
 			}
 		}
@@ -395,7 +425,13 @@ func cmdCheck(args []string) int {
 				gbs = append(gbs, gb)
 			}
 		}
-		g, err := c.genWith(fn, *prop, forb, oh, gbs)
+		var ffs []ForbidField
+		for _, ff := range cfg.ForbidFieldRead {
+			if c.gbScope(GuardedBy{Struct: ff.Struct + "." + ff.Field, Reachable: ff.Reachable})[c.keyOf(fn)] {
+				ffs = append(ffs, ff)
+			}
+		}
+		g, err := c.genWith(fn, *prop, forb, oh, gbs, ffs)
 		if err != nil {
 			genErrs = append(genErrs, err.Error())
 			continue
